@@ -395,6 +395,51 @@ pub fn run(ctx: &mut Ctx) {
             }
         }
     }
+    // ---- PT: every ordered pair of the bound-kind table (a prerelease, its successor, the
+    // release, its successor …) and neighbour operands: the shapes where `unwrap`s on interval
+    // construction and `unreachable!` arms would fire
+    ctx.stratum("PT-bound-kind-table-pairs", true);
+    {
+        let table: Vec<(String, Range, u8)> = crate::setops::table_operands(&crate::setops::chain()).into_iter().map(|o| (o.text, o.range, 0u8)).collect();
+        for a in &table {
+            if !ctx.take() {
+                continue;
+            }
+            for b in &table {
+                let mut out = vec![];
+                exercise_pair(ctx, a, b, &mut out);
+                for o in out.iter().take(3) {
+                    let mut out2 = vec![];
+                    exercise_pair(ctx, o, b, &mut out2);
+                }
+            }
+            ctx.class("table-pairs");
+        }
+    }
+    ctx.stratum("PN-neighbour-operand-pairs", false);
+    {
+        let tiv = crate::setops::table_intervals(&crate::setops::chain());
+        let n = ctx.tier.n(20_000, 2_000_000);
+        for i in 0..n {
+            if !ctx.take() {
+                continue;
+            }
+            let mut r = Rng::for_case(ctx.seed, "C06-PN", i);
+            let a = if r.chance(1, 2) { crate::setops::rand_operand(&mut r, &tiv) } else { crate::setops::rand_free_operand(&mut r) };
+            if let Some(a) = a {
+                if let Some(b) = crate::setops::neighbour_operand(&mut r, &a) {
+                    let (x, y) = ((a.text, a.range, 0u8), (b.text, b.range, 0u8));
+                    let mut out = vec![];
+                    exercise_pair(ctx, &x, &y, &mut out);
+                    for o in out.iter().take(2) {
+                        let mut out2 = vec![];
+                        exercise_pair(ctx, o, &x, &mut out2);
+                    }
+                    ctx.class("neighbour-pairs");
+                }
+            }
+        }
+    }
     // ---- U: random UTF-8
     ctx.stratum("U-random-utf8", false);
     let nu = ctx.tier.n(150_000, 15_000_000);
